@@ -688,7 +688,7 @@ func (e *Engine) addCover(st *State, label string) {
 	if n := e.oblNames[name]; n > 1 {
 		name = fmt.Sprintf("%s/path=%d", name, n)
 	}
-	o := &Obligation{Name: name, Kind: "cover", Func: e.curFunc, Props: e.curProps, Goal: tFalse, Hyps: append([]*Term{}, st.hyps...), Text: "entry assumptions are satisfiable (vacuity guard)", Variant: e.variant}
+	o := &Obligation{Name: name, Kind: "cover", Func: e.curFunc, Props: e.curProps, Goal: tFalse, Hyps: append([]*Term{}, st.hyps...), Text: "the path condition at " + label + " is satisfiable (vacuity guard)", Variant: e.variant}
 	e.obls = append(e.obls, o)
 }
 
@@ -709,6 +709,24 @@ func (e *Engine) checkReturn(ex Exit, fr *Frame, fn *ssa.Function, c *Contract, 
 		g := env.boolTerm(en.Expr)
 		e.addObligation(st, fr, "proves", strconv.Itoa(i), g, en.Text)
 		st.assume(g)
+	}
+	// `fresh x`: the object handed out was allocated by this call (or is nil), so it aliases nothing the
+	// caller or the receiver already holds
+	for _, f := range c.Fresh {
+		for _, x := range f.Exprs {
+			ok := false
+			switch p := env.eval(x).(type) {
+			case *PtrVal:
+				ok = p.null || (p.reg != nil && p.reg.fresh && env.freshSince(p.reg))
+			case *SliceVal:
+				ok = p.reg == nil || (p.reg.fresh && env.freshSince(p.reg))
+			case *RefVal:
+				ok = p.reg != nil && p.reg.fresh && env.freshSince(p.reg)
+			case *AggVal, *Term:
+				ok = true // values are copies
+			}
+			e.addObligation(st, fr, "fresh", exprString(x), mkBool(ok), "fresh "+exprString(x)+": allocated by this call (or nil)")
+		}
 	}
 	for i, en := range c.Ensures {
 		// implication introduction: `A ==> B` is proved by assuming A (which may enable lemma instances
